@@ -1,7 +1,8 @@
 --------------------------- MODULE Trace_Bounded ---------------------------
 (* C36 (b), TRACE-MONITOR level: passive Lorentz / Drude media that placement accepts without error or warning must
    not grow in a closed (all-periodic) box.  One record = one medium (declared poles, rational parameters in units of
-   dt), background permittivity eps and courant factor cf (rationals):
+   dt, per grid axis), background permittivity eps and courant factor cf (rationals); media with omega_0*dt >= 2 are
+   enumerated too (placement must reject them, or they must stay bounded):
      accepted   place_objects + apply_params raised nothing and emitted no warning (Python warnings, loguru and
                 logging output captured by the harness)
      ratio      max over the run of (field energy / initial field energy) * 1000, capped at 2*10^9
@@ -14,22 +15,28 @@ D == INSTANCE DispDefs
 Cases == JsonDeserialize(IOEnv.TRACE_FILE)
 VARIABLE ci
 
-Passive(p) == LET v == [ k \in 1..Len(p.v) |-> D!Rn(p.v[k]) ] IN
-              CASE p.ptype = "lorentz" -> v[1][1] > 0 /\ v[2][1] >= 0 /\ v[3][1] >= 0
-                [] p.ptype = "drude"   -> v[1][1] > 0 /\ v[2][1] >= 0
+\* a pole is [ptype, ax] with one parameter vector per grid axis (isotropic poles repeat it)
+AxP(p, i) == [ ptype |-> p.ptype, v |-> p.ax[i] ]
+Passive(p, i) == LET v == [ k \in 1..Len(p.ax[i]) |-> D!Rn(p.ax[i][k]) ] IN       \* non-negative damping and strength
+              CASE p.ptype = "lorentz" -> Len(v) = 3 /\ v[1][1] >= 0 /\ v[2][1] >= 0 /\ v[3][1] >= 0
+                [] p.ptype = "drude"   -> Len(v) = 2 /\ v[1][1] >= 0 /\ v[2][1] >= 0
                 [] OTHER -> FALSE
-Coefs(c) == [ k \in 1..Len(c.poles) |-> D!Coef(D!Unified(c.poles[k]), "ok") ]
-InsideBound(c) == D!CoupledStable(D!RSq(D!Rn(c.cf)), D!Rn(c.eps), Coefs(c))
+\* placement's own acceptance rule (Disp.tla: AcceptsWithinLimit): omega_0*dt < 2 on every axis that couples
+AllAccept(c) == \A k \in 1..Len(c.poles) : \A i \in 1..3 : D!Accepts(D!Unified(AxP(c.poles[k], i)), "or")
+Coefs(c, i) == [ k \in 1..Len(c.poles) |-> D!Coef(D!Unified(AxP(c.poles[k], i)), "ok") ]
+InsideBound(c) == \A i \in 1..3 : D!CoupledStable(D!RSq(D!Rn(c.cf)), D!Rn(c.eps), Coefs(c, i))
 
 Verdict(c) ==
-    IF ~(c.kind = "bounded" /\ Len(c.poles) >= 0 /\ c.min_steps >= 10000 /\ c.limit = 10000 /\ c.cf[2] > 0 /\ c.eps[2] > 0
-         /\ \A k \in 1..Len(c.poles) : Passive(c.poles[k]) /\ D!Precond(D!Unified(c.poles[k])))
+    IF ~(c.kind = "bounded" /\ c.min_steps >= 10000 /\ c.limit = 10000 /\ c.cf[2] > 0 /\ c.eps[2] > 0
+         /\ \A k \in 1..Len(c.poles) : Len(c.poles[k].ax) = 3 /\ \A i \in 1..3 : Passive(c.poles[k], i))
         THEN "malformed: bounded record"
     ELSE IF c.accepted /\ c.ratio > c.limit
         THEN "bounded: passive medium accepted without error or warning grows beyond 10x its initial field energy"
     ELSE IF c.accepted /\ c.steps < c.min_steps THEN "malformed: run shorter than the property's horizon"
+    ELSE IF c.accepted /\ ~AllAccept(c) THEN "model: accepted although omega_0*dt >= 2 on a coupling axis"
     ELSE IF c.accepted /\ ~InsideBound(c) THEN "model: bounded although outside the coupled stability bound"
-    ELSE IF ~c.accepted /\ c.raised = "" /\ InsideBound(c) THEN "model: warned although inside the coupled stability bound"
+    ELSE IF ~c.accepted /\ c.raised = "" /\ AllAccept(c) /\ InsideBound(c) THEN "model: warned although inside the coupled stability bound"
+    ELSE IF ~c.accepted /\ c.raised # "" /\ AllAccept(c) THEN "model: rejected with an error although omega_0*dt < 2 on every coupling axis"
     ELSE "ok"
 
 TInit == ci = 1 /\ TLCSet(1, << >>)
